@@ -31,6 +31,7 @@ type Script struct {
 	TermLagMs  int        `json:"term_lag_ms"`           // time between a fatal signal and death
 	Ignore     []int      `json:"ignore,omitempty"`      // signals this process ignores (never SIGKILL)
 	ExitOnSig  int        `json:"exit_on_sig"`           // 0: dies "signalled" (exit code -1); else exits with this code on a fatal signal
+	CrashSig   int        `json:"crash_sig,omitempty"`   // at the end of its life the command dies of this signal by itself (a crash): exit code -1
 	Children   []Script   `json:"children,omitempty"`    // forked at launch
 	NewGroup   bool       `json:"new_group,omitempty"`   // (child) leaves the parent's process group
 	HoldsPipes bool       `json:"holds_pipes,omitempty"` // (child) keeps the parent's stdout/stderr open
@@ -264,6 +265,10 @@ loop:
 		w.leave()
 		break loop
 	}
+	crashed := false
+	if !signalled && by == 0 && sc.CrashSig != 0 {
+		code, signalled, crashed = -1, true, true
+	}
 	w.enter()
 	p.Alive = false
 	p.ExitCode = code
@@ -274,6 +279,9 @@ loop:
 	cause := "script"
 	if by != 0 {
 		cause = fmt.Sprintf("signal %d", by)
+	}
+	if crashed {
+		cause = fmt.Sprintf("crashed with signal %d", sc.CrashSig) // nobody sent it
 	}
 	simlog.Add(simlog.Event{Kind: "os.exit", Subj: p.Token, Pid: p.Pid, N: code, A: cause})
 	if p.stdout != nil {
